@@ -308,7 +308,7 @@ def roundtrip(n, named, fmt):
     try:
         ss = []
         for i in range(n):
-            a = Atoms("CH" if i % 2 else "O", positions=[[0.5 * i, 0, 0], [0.5 * i, 1.25, 0]][: (2 if i % 2 else 1)], cell=[5, 6, 7], pbc=True)
+            a = Atoms("CH" if i % 2 else "O", positions=[[0.125 * (i % 32), 0, 0], [0.125 * (i % 32), 1.25, 0]][: (2 if i % 2 else 1)], cell=[5, 6, 7], pbc=True)
             if named:
                 a.info["name"] = "s%02d" % (n - i)
             ss.append(a)
